@@ -53,6 +53,9 @@ def expr_range(expr):
                 sub_ranges[0]
             )
         elif expr.op == "-":
+            if len(expr.args) == 2:
+                # A - B is A + (-B)
+                return expr_range(expr.args[0]) + (- expr_range(expr.args[1]))
             assert len(expr.args) == 1
             return - expr_range(expr.args[0])
         elif expr.op == "%":
